@@ -527,8 +527,162 @@ Fixpoint run_obs (v : variant) (cfg : config) (s : state) (ops : list op) : list
       end
   end.
 
-Definition case := (variant * config * list op)%type.
+(* ---------------------------------------------------------------------- *)
+(* lifecycle callbacks that RAISE                                           *)
+(*                                                                          *)
+(* on_phase_change(old, new) is called by _transition_to AFTER the phase    *)
+(* was assigned, on_senescence(reason) by _enter_senescence after the       *)
+(* transition to SENESCENT; both run inside the public call, under the lock.*)
+(* A callback may raise (any Exception / BaseException); nothing in the     *)
+(* class catches, so the exception leaves the public call at once: whatever *)
+(* the call would have done after that point is not done, whatever it did   *)
+(* before stays.  [cbs] says what the two callbacks do during one call; a   *)
+(* history pairs every operation with the behaviour then in force (a        *)
+(* callback that fails once: one raising entry, quiet ones afterwards).     *)
+
+Record cbs := mkCbs {
+  pc_raise : list trans;        (* on_phase_change(old, new) raises for these pairs *)
+  sen_raise : bool }.           (* on_senescence is supplied and raises *)
+
+Definition quiet_cbs : cbs := mkCbs [] false.
+
+Definition trans_eqb (a b : trans) : bool :=
+  phase_eqb (fst a) (fst b) && phase_eqb (snd a) (snd b).
+Definition pc_raises (c : cbs) (t : trans) : bool := existsb (trans_eqb t) (pc_raise c).
+Definition to_senescent (t : trans) : bool := phase_eqb (snd t) Senescent.
+
+(* the call ran to its end (value / ZeroDivisionError / never returns), or
+   the exception of a callback left it *)
+Inductive xoutcome := Done (r : outcome) | CallbackRaised.
+
+Section Callbacks.
+  Variable depleted : Z -> Z -> bool.
+  Variable rate_hit : Z -> Z -> bool.
+  Variable v : variant.
+
+  (* the attributes a call leaves when on_phase_change raises in its FIRST
+     transition; [s'] = what the completed call leaves.  tick on a NASCENT
+     lifecycle: the exception leaves start(), nothing of the tick itself has
+     happened; renew: `_senescence_reason = None` comes after the transition;
+     every other method has assigned all it assigns before its transition *)
+  Definition cut_first (s s' : state) (o : op) : state :=
+    match o with
+    | Tick _ => if phase_eqb (ph s) Nascent then fst (do_start s) else s'
+    | Renew _ _ => mkState (ph s') (len s') (ops_count s') (err_count s') (renewals s')
+                           (sen_reason s) (started_at s') (last_activity s') (now s')
+    | _ => s'
+    end.
+
+  Definition step_cb (c : cbs) (cfg : config) (s : state) (o : op)
+    : state * xoutcome * list trans :=
+    let '(s', r, tr) := step depleted rate_hit v cfg s o in
+    match tr with
+    | [] => (s', Done r, [])                 (* no transition: no callback runs *)
+    | t1 :: rest =>
+        if pc_raises c t1 then (cut_first s s' o, CallbackRaised, [t1])
+        else if to_senescent t1 && sen_raise c then (s', CallbackRaised, [t1])
+        else match rest with
+             | [] => (s', Done r, tr)
+             | t2 :: _ =>
+                 (* the second transition of a call is its last action but for on_senescence *)
+                 if pc_raises c t2 || (to_senescent t2 && sen_raise c)
+                 then (s', CallbackRaised, tr) else (s', Done r, tr)
+             end
+    end.
+
+  Definition xstate (c : cbs) (cfg : config) (s : state) (o : op) : state := fst (fst (step_cb c cfg s o)).
+  Definition xout (c : cbs) (cfg : config) (s : state) (o : op) : xoutcome := snd (fst (step_cb c cfg s o)).
+  Definition xtrans (c : cbs) (cfg : config) (s : state) (o : op) : list trans := snd (step_cb c cfg s o).
+
+  (* a history of calls, each with the behaviour of the callbacks during it *)
+  Fixpoint xexec (cfg : config) (s : state) (h : list (cbs * op)) : state :=
+    match h with
+    | [] => s
+    | (c, o) :: rest => xexec (cfg_step cfg o) (xstate c cfg s o) rest
+    end.
+
+  Fixpoint xstream (cfg : config) (s : state) (h : list (cbs * op)) : list trans :=
+    match h with
+    | [] => []
+    | (c, o) :: rest => xtrans c cfg s o ++ xstream (cfg_step cfg o) (xstate c cfg s o) rest
+    end.
+End Callbacks.
+
+Definition xret_code (r : xoutcome) : Z :=
+  match r with Done r => ret_code r | CallbackRaised => -5 end.
+
+Definition xobs_row (s : state) (r : xoutcome) (tr : list trans) : list Z :=
+  [xret_code r; phase_code (ph s); len s; err_count s; ops_count s; renewals s;
+   reason_code (sen_reason s); ot_code (started_at s); ot_code (last_activity s)]
+  ++ flat_map (fun t : trans => [phase_code (fst t); phase_code (snd t)]) tr.
+
+Fixpoint run_xobs (v : variant) (cfg : config) (s : state) (h : list (cbs * op)) : list (list Z) :=
+  match h with
+  | [] => []
+  | (c, o) :: rest =>
+      let '(s', r, tr) := step_cb depleted_f64 rate_hit_f64 v c cfg s o in
+      match r with
+      | Done Hang => [[-999]]
+      | _ => (xobs_row s' r tr ++ (if is_assignment o then cfg_row (cfg_step cfg o) else []))
+             :: run_xobs v (cfg_step cfg o) s' rest
+      end
+  end.
+
+(* ---------------------------------------------------------------------- *)
+(* two threads                                                              *)
+(*                                                                          *)
+(* Every public method does all its reads and writes of the lifecycle       *)
+(* attributes inside `with self._lock` (renew reads the configuration       *)
+(* attribute allow_renewal before it), so a call takes effect atomically    *)
+(* when it acquires the lock: an execution of two threads is the sequential *)
+(* execution of its LINEARISATION, the calls in the order in which they     *)
+(* acquired the lock ([false] = the next call of thread A, [true] = of B).  *)
+(* The harness runs real threads under a deterministic scheduler, records   *)
+(* the order of the lock acquisitions and the attributes at every release;  *)
+(* the model runs the linearisation.                                        *)
+
+Fixpoint merge (lin : list bool) (a b : list op) : list op :=
+  match lin with
+  | [] => []
+  | false :: r => match a with o :: a' => o :: merge r a' b | [] => merge r a b end
+  | true :: r => match b with o :: b' => o :: merge r a b' | [] => merge r a b end
+  end.
+
+(* rows: thread, then the row of the call; last row: the calls that never took effect *)
+Fixpoint run_lin (v : variant) (cfg : config) (s : state) (a b : list op) (lin : list bool)
+  : list (list Z) :=
+  match lin with
+  | [] => [[-1; Z.of_nat (List.length a); Z.of_nat (List.length b)]]
+  | t :: rest =>
+      match (if t then b else a) with
+      | [] => [[-998]]
+      | o :: more =>
+          let '(s', r, tr) := step depleted_f64 rate_hit_f64 v cfg s o in
+          match r with
+          | Hang => [[-999]]
+          | _ => ((if t then 1 else 0) :: obs_row s' r tr)
+                 :: run_lin v (cfg_step cfg o) s' (if t then a else more) (if t then more else b) rest
+          end
+      end
+  end.
+
+(* ---------------------------------------------------------------------- *)
+(* the cases of the correspondence check *)
+
+Inductive hist :=
+  | Plain (ops : list op)                          (* one thread, callbacks return *)
+  | Seq (h : list (cbs * op))                      (* one thread, callbacks may raise *)
+  | Par (pre a b : list op) (lin : list bool).     (* a sequential prefix, then two threads *)
+
+Definition case := (variant * config * hist)%type.
 
 Definition run_case (c : case) : list (list Z) :=
-  let '(v, cfg, ops) := c in
-  cfg_row cfg :: obs_row (init cfg) (Ret RNone) [] :: run_obs v cfg (init cfg) ops.
+  let '(v, cfg, h) := c in
+  cfg_row cfg :: obs_row (init cfg) (Ret RNone) [] ::
+  match h with
+  | Plain ops => run_obs v cfg (init cfg) ops
+  | Seq h => run_xobs v cfg (init cfg) h
+  | Par pre a b lin =>
+      run_obs v cfg (init cfg) pre ++
+      run_lin v (cfg_exec cfg pre) (exec depleted_f64 rate_hit_f64 v cfg (init cfg) pre) a b lin
+  end.
